@@ -19,8 +19,8 @@ tc: /c/
 
 S : Line+ ;
 Line :
-    (ta separator ',')+ ';'
+    ta (ta separator ',')+ ';'
   | tb (tc separator ',' ';')* ';'
   | tc taopt (tb | tc ta?)* ';'
-  | ta tb+? ';' ';'
+  | ',' tb+? ';'
 ;
